@@ -456,6 +456,70 @@ def run_unregister(answer):
     return viol
 
 
+def run_route_return(api):
+    """a route declared through the decorator while the application is connected: the decorator hands the function back, so the same
+    function can be declared for a second prefix (stacked decorators) or attached elsewhere by name"""
+    viol = []
+    acc = Acc()
+    tb = Table(api)
+    try:
+        h = tb._handler('shared')
+        got = tb.app.route(as_repr(('a',), 0))(h)
+        tb.loop.settle()
+        if got is not h:
+            viol.append((f'C04|{api}|route-return|decorator-returns:{type(got).__name__}', 'app.route(...)(f) did not return f while connected'))
+        got2 = tb.app.route(as_repr(('b', 'c'), 1))(got if got is not None else h)
+        tb.loop.settle()
+        if api == 'v2':
+            tb.app.attach_handler(as_repr(('c',), 0), got2 if got2 is not None else h)
+        else:
+            tb.app.set_interest_filter(as_repr(('c',), 0), got2 if got2 is not None else h)
+        check_table(tb, {('a',): 'shared', ('b', 'c'): 'shared', ('c',): 'shared'}, PROBES4, 'route-return', viol, acc)
+    except Exception as e:  # noqa
+        viol.append((f'C04|{api}|route-return|raises:{type(e).__name__}', repr(e)))
+    finally:
+        tb.close()
+    return viol
+
+
+def run_register_none():
+    """legacy: register(name, None) only tells the forwarder; it gives the prefix no handler, so a handler at a shorter prefix goes on
+    receiving the Interests under it"""
+    viol = []
+    acc = Acc()
+    tb = Table('legacy')
+    try:
+        attached = {}
+        for k, pth in enumerate([('a',), ('b',)]):
+            tb.attach(pth, k, 'h' + '/'.join(pth))
+            attached[pth] = 'h' + '/'.join(pth)
+
+        def on_send(wire):
+            if wire[0] == 5:
+                r = ns.read_interest(wire)
+                body = ts.tlv(0x65, ts.tlv(0x66, ts.uint(200)) + ts.tlv(0x67, b'OK'))
+                tb.face.deliver(bytes(enc.make_data([bytes(c) for c in r['name']], enc.MetaInfo(), body)))
+        tb.face.on_send = on_send
+        out = {}
+
+        async def go():
+            try:
+                out['r'] = await tb.app.register(as_repr(('a', 'b'), 0), None)
+            except BaseException as e:  # noqa
+                out['r'] = f'raises:{type(e).__name__}'
+        tb.loop.create_task(go())
+        tb.loop.settle()
+        tb.face.on_send = None
+        if out.get('r') is not True:
+            viol.append((f"C04|legacy|register-none|result={out.get('r')}", 'register(name, None) confirmed by the forwarder did not return True'))
+        check_table(tb, attached, PROBES4, 'register-none', viol, acc)
+    except Exception as e:  # noqa
+        viol.append((f'C04|legacy|register-none|raises:{type(e).__name__}', repr(e)))
+    finally:
+        tb.close()
+    return viol
+
+
 def run_reconnect(rot):
     """appv2: handlers stay attached over the end of one connection and the start of the next one (same application object)"""
     viol = []
@@ -676,6 +740,17 @@ def unit(arg):
             acc.observe(['route-alias', api, [x[0] for x in v]])
             for sig, what in v:
                 acc.violation(sig, what, {'kind': 'route-alias', 'api': api})
+        for label, fn in (('route-return|v2', lambda: run_route_return('v2')), ('route-return|legacy', lambda: run_route_return('legacy')),
+                          ('register-none', run_register_none)):
+            v = fn()
+            acc.evaluations += 1
+            acc.state_count += 1
+            acc.nontrivial += 1
+            acc.transitions += len(PROBES4) + 2
+            acc.outcome(f"{label}|{'ok' if not v else 'viol'}")
+            acc.observe([label, [x[0] for x in v]])
+            for sig, what in v:
+                acc.violation(sig, what, {'kind': 'misc', 'label': label})
         for answer in UNREG_ANSWERS:
             v = run_unregister(answer)
             acc.evaluations += 1
@@ -722,6 +797,9 @@ def replay(case):
         v = run_route_alias(case['api'])
     elif case['kind'] == 'unregister':
         v = run_unregister(case['answer'])
+    elif case['kind'] == 'misc':
+        v = {'route-return|v2': lambda: run_route_return('v2'), 'route-return|legacy': lambda: run_route_return('legacy'),
+             'register-none': run_register_none}[case['label']]()
     elif case['kind'] == 'two-apps':
         v = run_two_apps(case['api'], case['rot'])
     else:
